@@ -145,6 +145,22 @@ def check(run: Run) -> None:
             run.violation("R11.2", fi.module, fi.qualname, c, "`octave validate --fix` discards the RepairLog: values are changed in the printed canonical text with no record of before/after",
                           failing_input="octave validate --schema <schema with ENUM[ACTIVE,...]> --fix on a document with STATUS::active prints STATUS::ACTIVE and no repair entry")
 
+    # RepairLog.add records unconditionally and faithfully; to_dict passes every field through
+    rlm = run.project.mod("core.repair_log")
+    addf = rlm.func("RepairLog.add")
+    acfg = CFG(addf.node)
+    appends = [n for n in acfg.nodes if n.ast is not None and any(isinstance(c, ast.Call) and isinstance(c.func, ast.Attribute) and c.func.attr == "append" and ast.unparse(c.func.value) == "self.repairs" for c in ast.walk(n.ast))]
+    ok = len(appends) == 1 and not branch_conditions(acfg, appends[0].id) and acfg.all_paths_pass(acfg.entry, acfg.exit, lambda nn: nn.id == appends[0].id) is None
+    if ok:
+        call = [c for c in ast.walk(appends[0].ast) if isinstance(c, ast.Call) and ast.unparse(c.func) == "RepairEntry"]  # type: ignore[arg-type]
+        params = [a.arg for a in addf.node.args.args][1:]  # type: ignore[attr-defined]
+        ok = len(call) == 1 and [ast.unparse(a) for a in call[0].args] + [ast.unparse(k.value) for k in call[0].keywords] == params
+    other_writes = [n for fi2 in rlm.cls("RepairLog").methods.values() for n in walk_no_nested(fi2.node) if isinstance(n, ast.Call) and isinstance(n.func, ast.Attribute) and n.func.attr in ("pop", "remove", "clear", "insert", "sort", "reverse") and ast.unparse(n.func.value) == "self.repairs"]
+    other_writes += [n for fi2 in rlm.cls("RepairLog").methods.values() for n in walk_no_nested(fi2.node) if isinstance(n, ast.Attribute) and isinstance(n.ctx, (ast.Store, ast.Del)) and n.attr == "repairs"]
+    run.instance("R11.2", rlm.loc(addf.node), "RepairLog.add appends one RepairEntry built from its own arguments on every path, unconditionally; the log is never pruned", ok=ok and not other_writes)
+    if not (ok and not other_writes):
+        run.violation("R11.2", rlm, addf.qualname, other_writes[0] if other_writes else "self.repairs.append(RepairEntry(...)) on every path", "RepairLog.add does not record every call (conditional / de-duplicated / rewritten entry), or the log is pruned: a change applied to the document would have no log entry")
+
     # ---------------------------------------------------------------- R11.3
     cfg = CFG(rv.node)
     loops = [n for n in cfg.nodes if n.kind == "iter"]
@@ -192,6 +208,19 @@ def check(run: Run) -> None:
         if not (kind_ok and str_ok):
             run.violation("R11.5", mod, tc.qualname, rn.ast, f"type coercion can succeed for a non-NUMBER constraint or a non-string value (NUMBER guard={kind_ok}, str guard={str_ok})")  # type: ignore[arg-type]
         x = rn.ast.value.elts[0]  # type: ignore[union-attr]
+        # the returned number is converted from the text, never from another number: every binding of x is int(<text>) / float(<text>)
+        if isinstance(x, ast.Name):
+            text_names = {pv}
+            for st2, v2 in _assignments(tc, x.id):
+                pass
+            for n2 in walk_no_nested(tc.node):
+                if isinstance(n2, ast.Assign) and len(n2.targets) == 1 and isinstance(n2.targets[0], ast.Name) and isinstance(n2.value, ast.Call) and isinstance(n2.value.func, ast.Attribute) and n2.value.func.attr == "strip" and is_name(n2.value.func.value, pv):
+                    text_names.add(n2.targets[0].id)
+            for st2, v2 in _assignments(tc, x.id):
+                okb = isinstance(v2, ast.Call) and ast.unparse(v2.func) in ("int", "float") and len(v2.args) == 1 and isinstance(v2.args[0], ast.Name) and v2.args[0].id in text_names
+                run.instance("R11.5", mod.loc(st2), f"_attempt_type_coercion: `{norm(st2)}` converts the field's text directly", ok=okb)
+                if not okb:
+                    run.violation("R11.5", mod, tc.qualname, st2, "the coerced number is derived from something other than int(text)/float(text) of the field's own text (e.g. a float re-converted to int): digits the author never wrote end up in the document")
         floats = [n for n in cfg.nodes if isinstance(n.ast, ast.Assign) and isinstance(n.ast.value, ast.Call) and ast.unparse(n.ast.value.func) == "float" and any(ast.dump(t) == ast.dump(x).replace("Load", "Store") for t in n.ast.targets)]
         if not floats:
             run.note("_attempt_type_coercion: no float() branch found")
